@@ -7,7 +7,8 @@ PID = "C19"
 PROPS = ["Props/C19.v"]
 GEN = ['LexConst.v']
 MODEL_IS_SPEC = False
-RULE = ("rejected strings: near-miss mutants of valid queries and token soup, re-rendered with LF / CR / CRLF / blanks inserted at positions where blank space is legal (and elsewhere), "
+RULE = ("15%: string literals (both quotes, name and comparison position) with many other-kind quotes / escapes followed by a malformed item, near the end of the text; "
+        "rejected strings: near-miss mutants of valid queries and token soup, re-rendered with LF / CR / CRLF / blanks inserted at positions where blank space is legal (and elsewhere), "
         "so that the error lands on any line; for each rejection: err.token.index must lie in [0, len(text)], and the 'line N, column M' printed by str(err) must equal the Coq "
         "specification's line/column of that offset; class, offset, line and column are also compared with the model; non-trivial = text contains a line break before the error; "
         "distinct = distinct strings")
@@ -41,7 +42,16 @@ def cases(ctx, budget):
     n = (6000 if ctx.quick else 250000) * budget
     for i in range(n):
         r = rng.random()
-        if r < 0.7:
+        if r < 0.15:
+            # a string literal with a malformed item late in its body, close to the end of the text: errors found while decoding
+            # the literal must still point into the text, whatever rewriting the decoder applied to the body before
+            q = rng.choice("'\"")
+            other = '"' if q == "'" else "'"
+            pre = "".join(rng.choice([other, other, other, "\\" + q, "a", "\\\\", "\\n", " "]) for _ in range(rng.randint(0, 9)))
+            bad = rng.choice(["\t", "\x01", "\x1f", "\\x", "\\u12", "\\uD800", "\\uDC00\\uD800", "\\" + other, "\n"])
+            lit = q + pre + bad + rng.choice(["", "z", other]) + q
+            text = rng.choice(["$[%s]", "$[?@==%s]", "$.a[%s]", "$[?@.b[%s]]", "$[1,%s]"]) % lit
+        elif r < 0.7:
             base = gen.render_query(rng, gen.rand_query(rng, names=gen.SIMPLE_NAMES, depth=rng.randint(1, 3)))
             text = harness.mutate_text(rng, base)
         else:
